@@ -888,6 +888,47 @@ fn gen_updater_history(r: &mut Rng, start: &Flat, target: &Flat) -> (Vec<Op>, Fl
     (ops, final_content)
 }
 
+/// A zone with delegations / aliases built through the zone-file path, then a few RRset-level updates that
+/// leave every delegation, alias and glue address alone ("safe" operations): the delegation state stays
+/// consistent, so the zone must answer like the rebuilt one.
+fn gen_safe_delta_history(r: &mut Rng, start: &Flat) -> (Vec<Op>, Flat) {
+    let mut ops = zonefile_ops(start, r);
+    let mut cur = start.clone();
+    let glue_targets: BTreeSet<Rel> = start.m.iter().filter(|(k, _)| k.1 == T_NS && !k.0 .0.is_empty())
+        .flat_map(|(_, v)| v.1.iter().filter_map(|rd| if let Rd::Tgt(t) = rd { Some(t.clone()) } else { None })).collect();
+    let special_owner = |z: &Flat, n: &Rel| !n.0.is_empty() && (z.has(n, T_NS) || z.has(n, T_CNAME));
+    ops.push(Op::UNew);
+    let mut tok = 9000u32;
+    let pool: Vec<Rel> = start.m.keys().map(|k| k.0.clone()).collect();
+    let steps = r.range(1, 6);
+    for _ in 0..steps {
+        if r.chance(1, 2) {
+            // add a record at a fresh or existing ordinary name (possibly below an empty non-terminal, below a cut, next to a wildcard)
+            let n = gen_name(r, &pool, 4);
+            if special_owner(&cur, &n) || glue_targets.contains(&n) { continue; }
+            let ty = *r.pick(&[T_TXT, T_A, T_AAAA]);
+            if (ty == T_A || ty == T_AAAA) && glue_targets.contains(&n) { continue; }
+            let ttl = cur.m.get(&(n.clone(), ty)).map(|e| e.0).unwrap_or(100 + ty as u32);
+            let rec = Rec { owner: n, rtype: ty, ttl, rd: Rd::Tok(tok) };
+            tok += 1;
+            ops.push(Op::UAdd(rec.clone())); cur.add(&rec);
+        } else {
+            // delete an ordinary record (possibly the last one of its name)
+            let cands: Vec<Rec> = cur.records().into_iter().filter(|x| !x.owner.0.is_empty() && ![T_NS, T_DS, T_CNAME, T_SOA].contains(&x.rtype)
+                && !glue_targets.contains(&x.owner)).collect();
+            if cands.is_empty() { continue; }
+            let rec = r.pick(&cands).clone();
+            ops.push(Op::UDel(rec.clone())); cur.del(&rec);
+        }
+        if r.chance(1, 5) { ops.push(Op::UBatchDel(tok)); tok += 1; }
+    }
+    let st = match cur.m.get(&(Rel::apex(), T_SOA)).and_then(|(_, rds)| rds.iter().next().cloned()) { Some(Rd::Tok(t)) => t, _ => tok };
+    cur.m.remove(&(Rel::apex(), T_SOA));
+    cur.add(&soa_rec(st));
+    ops.push(Op::UFin(st));
+    (ops, cur)
+}
+
 /// A write-interface history ending in `target` (only RRset-level calls, so that
 /// the content is well defined).
 fn gen_write_history(r: &mut Rng, start: &Flat, target: &Flat) -> (Vec<Op>, Flat) {
@@ -1154,6 +1195,15 @@ fn main() {
         let (hops, content) = if i % 3 == 2 { gen_write_history(&mut r, &start, &z) } else { gen_updater_history(&mut r, &start, &z) };
         let rz = if content.wf() { cx.run(&zonefile_ops(&content, &mut r)).map(|b| b.zone) } else { None };
         cx.eval(if i % 3 == 2 { "write_history" } else { "updater_history" }, &hops, Some(&content), &hq, rz.as_ref());
+        // (3) safe updates on a zone with delegations
+        if i % 2 == 1 {
+            let (sops, scontent) = gen_safe_delta_history(&mut r, &z);
+            if scontent.wf() {
+                let sq = gen_queries(&mut r, &scontent, &[], n_q / 2);
+                let rz = cx.run(&zonefile_ops(&scontent, &mut r)).map(|b| b.zone);
+                cx.eval("safe_delta_history", &sops, Some(&scontent), &sq, rz.as_ref());
+            }
+        }
     }
     cx.out.finish(&[]);
 }
